@@ -153,7 +153,7 @@ theorem inheritedLog_eq (env : Env) (fuel : Nat) (defined : List String) (k : Cl
     n03_inheritedLog env (fuel + 1) defined (k :: ks) =
       (k.methods.filter fun m => (m.isPublic || !isInternal m.name) && !defined.contains m.name).map
           (fun m => (if m.isProperty then "prop" else "fun", m.id))
-        ++ (k.classes.filter fun ic => !isInternal ic.name).flatMap (n03_classLog env fuel)
+        ++ (k.classes.filter fun ic => !isInternal ic.name && !defined.contains ic.name).flatMap (n03_classLog env fuel)
         ++ n03_inheritedLog env fuel
             (defined ++ (k.methods.filter fun m => m.isPublic || !isInternal m.name).map (·.name)) ks := by
   refine ⟨by cases fuel <;> rfl, ?_⟩
